@@ -26,6 +26,10 @@ def run(c):
     for r in rej:
         ev, raw = txnlib.describe(r)
         sig = "seq|%s|%s" % (raw.get("ev"), raw.get("op") or ("exists=%s" % raw.get("exists")))
+        if raw.get("ev") == "ObserveError":
+            stores = {s["Name"]: s for s in (r["header"].get("program") or {}).get("stores", [])}
+            ends = [e for e in r["raw"][:r["index"]] if e.get("ev") in ("CommitEnd", "Rollback")]
+            sig += "|%s|after-%s" % (stores.get(raw.get("s"), {}).get("Placement", "?"), "rollback" if ends and ends[-1].get("ev") == "Rollback" else "commit")
         if raw.get("ev") == "Op" and raw.get("op") in txnlib.READ_OPS:
             stores = {s["Name"]: s for s in (r["header"].get("program") or {}).get("stores", [])}
             empty = (raw.get("op") in ("Get",) and raw.get("ok") and raw.get("v") == "") or any(x.get("v") == "" for x in raw.get("items") or [])
